@@ -144,14 +144,15 @@ CHECKS = {
        "the uplink map, index <= 71, bandwidth of the data rate = channel kind) at a region-defined data rate; C09_send_/C09_join_transmission_legal -- what send / join_otaa hand to the radio is such a "
        "channel with the rf parameters of its data rate and power <= min(127, board limit); the invariant is kept by every MAC operation (C04) and no operation changes the region identity or the board "
        "limit (handle_cmd_rid ... mac_handle_rx_dev); C09_nb_every_transmission_legal / C09_nb_fresh_device -- along EVERY event sequence of nb_device (requests, radio events with any answer and any received "
-       "bytes, timeouts, a fault at any call) from a fresh device of any region every frame handed to the radio is legal. PARTIAL: the literal 'terminates for every random stream' is REFUTED for the "
+       "bytes, timeouts, a fault at any call) from a fresh device of any region every frame handed to the radio is legal; C09_async_every_transmission_legal / C09_async_fresh_device -- the same for "
+       "async_device after ANY sequence of join / send / rxc_listen calls against any radio script, whatever each call returned. PARTIAL: the literal 'terminates for every random stream' is REFUTED for the "
        "rejection samplers (C09_termination_every_stream_refuted_*: known finding); 'enabled in the mask in force' is proved per transmission for the mask-driven paths (join channels are not governed by "
        "the mask), the whole-history theorem carries band / map / data rate / power. Tied to the code by MAC histories over board powers 0..255, "
        "gains -128..127, join bias, CFLists, LinkADRReq blocks, NewChannelReq/DlChannelReq, set_datarate, ADR back-off, with a snapshot around every transmission and all 64 outcomes of the first channel draw "
        "from reached states; every TX judged by band / channel-map / data-rate / power rules written from RP002; both front-ends run model against code on event histories (join bias, faults, "
        "hostile frames) with every handed-over frame judged by the same rules.",
   note=COMMON_NOTE + "Region tables (bands, channel maps, data rates, join data rates, EIRP) are regenerated from /repo by tools/rs2v/regiontables.py. The oracle reads the channel plan / mask from the hook's snapshot.",
-  tech="machine-checked proof in Coq (plan invariant + legality of every selection path + fall-back + power bound, lifted to every nb_device event sequence; termination on every stream refuted by a witness) + translator-regenerated tables + MAC-history and front-end correspondence with exhaustive first-draw enumeration + RP002 oracle", ref="6 C09"),
+  tech="machine-checked proof in Coq (plan invariant + legality of every selection path + fall-back + power bound, lifted to every nb_device event sequence and every async_device call sequence; termination on every stream refuted by a witness) + translator-regenerated tables + MAC-history and front-end correspondence with exhaustive first-draw enumeration + RP002 oracle", ref="6 C09"),
  "C10": dict(
   text="Coq theorems (Props/C10.v): the RX1 data-rate function of each of the 9 regions equals the RP002 rule (EU/AS/IN: max(dr-off,0); US915: min(13,max(8,10+dr-off)); AU915: "
        "min(13,max(8,8+dr-off))) on the whole scope where RP002 defines it (sweep of all 9x16x8 inputs of the regenerated tables, lifted by forallb_forall) and is TOTAL (no panic, "
